@@ -3,6 +3,7 @@
 pub mod ctstep;
 pub mod digest;
 pub mod exec;
+pub mod fuzzglue;
 pub mod harness;
 pub mod genr;
 pub mod props;
